@@ -104,7 +104,60 @@ func fieldRenameAliases(pkg *types.Package) []string {
 		}
 	}
 	out = append(out, promotedFieldAliases(pkg)...)
+	out = append(out, typeRenameAliases(pkg)...)
 	sort.Strings(out)
+	return out
+}
+
+// typeAlias maps the name of a struct type that is new to the name of the struct type of the pinned tree it replaces:
+// the old name is gone, and exactly one new struct type has, under their old names and with their old types, at least
+// two of the old type's fields (the payload fields survive a rename that adds or drops a convenience field).
+var typeAlias = map[string]string{}
+
+func typeRenameAliases(pkg *types.Package) []string {
+	typeAlias = map[string]string{}
+	baseline := map[string]string{}
+	for _, l := range strings.Split(baselineFieldsTxt, "\n") {
+		if parts := strings.SplitN(strings.TrimSpace(l), "\t", 2); len(parts) == 2 && !strings.HasPrefix(parts[0], "#") {
+			baseline[parts[0]] = parts[1]
+		}
+	}
+	var out []string
+	for old, fields := range baseline {
+		if pkg.Scope().Lookup(old) != nil {
+			continue
+		}
+		want := map[string]string{}
+		for _, o := range strings.Split(fields, "|") {
+			if nt := strings.SplitN(o, ":", 2); len(nt) == 2 {
+				want[nt[0]] = nt[1]
+			}
+		}
+		var cands []string
+		for _, name := range pkg.Scope().Names() {
+			tn, ok := pkg.Scope().Lookup(name).(*types.TypeName)
+			if !ok || baseline[name] != "" {
+				continue
+			}
+			st, ok := tn.Type().Underlying().(*types.Struct)
+			if !ok {
+				continue
+			}
+			hit := 0
+			for i := 0; i < st.NumFields(); i++ {
+				if t, ok := want[st.Field(i).Name()]; ok && t == types.TypeString(st.Field(i).Type(), types.RelativeTo(pkg)) {
+					hit++
+				}
+			}
+			if hit >= 2 && hit*2 >= len(want) {
+				cands = append(cands, name)
+			}
+		}
+		if len(cands) == 1 {
+			typeAlias[cands[0]] = old
+			out = append(out, "type "+old+" -> "+cands[0])
+		}
+	}
 	return out
 }
 
